@@ -5,12 +5,19 @@ import (
 
 	"gonum.org/v1/gonum/mat"
 	"gonum.org/v1/gonum/verifx/ref"
+	"gonum.org/v1/gonum/verifx/vrt"
 )
 
 // checkGSVD: A is r x c, B is p x c. zeroCol forces a common zero column
 // (the stacked matrix then has rank c-1).
 func (h *H) checkGSVD(idx, r, p, c int, zeroCol bool) {
 	rng := h.c.RNG("gsvd", idx)
+	if zeroCol {
+		// The common-zero-column class is pinned: its data do not depend on
+		// VERIF_SEED, so that the signatures of the open finding it exposes
+		// (Dggsvp3 does not pivot) are the same in every run.
+		rng = vrt.NewRand(0xC06D12<<8 + uint64(idx))
+	}
 	id := idf("GSVD A=%dx%d B=%dx%d zerocol=%v #%d", r, c, p, c, zeroCol, idx)
 	a := randM(rng, r, c)
 	b := randM(rng, p, c)
@@ -177,7 +184,17 @@ func (h *H) checkHOGSVD(idx, c, nmat int) {
 	ops := make([]mat.Matrix, nmat)
 	for i := range ms {
 		rows[i] = c + rng.Intn(c+3)
-		ms[i] = rectMatrix(rng, rows[i], c, rng.PickFloat(3, 10, 30))
+		// Independent random spectra in [0.2, 1]: with equal prescribed
+		// spectra the matrix S of the HOGSVD has a repeated eigenvalue (for
+		// c = 2, N = 2 it is a multiple of the identity whenever
+		// det(M0'M0) = det(M1'M1)), rounding turns it into a complex pair
+		// and Factorize reports failure (ok = false, Err set), which is an
+		// honest answer for a degenerate input, not a violation.
+		sv := make([]float64, c)
+		for j := range sv {
+			sv[j] = rng.Uniform(0.2, 1)
+		}
+		ms[i] = withSV(rng, rows[i], c, sv)
 		ops[i] = makeMat((idx+i)%nMatKinds, ms[i])
 	}
 	id := idf("HOGSVD c=%d rows=%v #%d", c, rows, idx)
